@@ -261,3 +261,9 @@ Definition compute_edits_with (split : str -> list str) (before after : str) : r
 
 Definition compute_edits : str -> str -> res (list text_edit) := compute_edits_with split_lines.
 Definition compute_edits_pinned : str -> str -> res (list text_edit) := compute_edits_with split_lines_pinned.
+
+(* A server process answers a SEQUENCE of requests.  The model of a sequence of calls is the model of one
+   call, mapped over the sequence: nothing is carried from one call to the next (seed round 3: the
+   implementation has to be a function of the pair too, whatever it keeps between calls). *)
+Definition compute_edits_seq (calls : list (str * str)) : list (res (list text_edit)) :=
+  map (fun p => compute_edits (fst p) (snd p)) calls.
